@@ -188,7 +188,9 @@ class RevolveCheckpointSchedule(CheckpointSchedule):
             Whether this schedule uses the given storage type.
         """
         if storage_type == StorageType.DISK:
-            return self._snapshots_on_disk > 0
+            # Unlimited disk storage is indicated by None
+            return (self._snapshots_on_disk is None
+                    or self._snapshots_on_disk > 0)
         elif storage_type == StorageType.RAM:
             return self._snapshots_in_ram > 0
         else:
